@@ -714,19 +714,29 @@ mod proofs_s {
     hf!(s12_drop_send_bcast_n2, s_fut_drop_send, BCast<Pay>, 2, 1, false);
     hf!(s12_drop_send_mpmc_n2, s_fut_drop_send, MPMC<Pay>, 2, 1, true);
 
+    hi!(i2_recv_churn_bcast_n2_b2, i_try_recv_churn, BCast<Pay>, 2, 1, false, 2);
+    hi!(i2_recv_churn_mpmc_n2_b2, i_try_recv_churn, MPMC<Pay>, 2, 1, true, 2);
+    hi!(i13_drop_send_race_bcast_n2, i_drop_send_race, BCast<Pay>, 2, false);
+    hi!(i13_drop_send_race_mpmc_n2, i_drop_send_race, MPMC<Pay>, 2, true);
+    hi!(i12_remove_consumer_n2, i_consumer_count, BCast<Pay>, 2, true);
+    hi!(i12_dup_consumer_n2, i_consumer_count, BCast<Pay>, 2, false);
     // ---- I5: wait arguments under interference
     hi!(i5_recv_args_sole_bcast_n2_b2, i_recv_wait_args, BCast<Pay>, 2, 1, false, 2, false, false);
     hi!(i5_recv_args_shared_bcast_n2_b2, i_recv_wait_args, BCast<Pay>, 2, 1, false, 2, true, false);
     hi!(i5_recv_args_shared_mpmc_n2_b2, i_recv_wait_args, MPMC<Pay>, 2, 1, true, 2, true, false);
     hi!(i5_recv_view_args_bcast_n2_b2, i_recv_wait_args, BCast<Pay>, 2, 1, false, 2, false, true);
     // ---- T: bounded own steps from frozen-others states
-    h3!(t1_try_send_bcast_n2, t_try_op, BCast<Pay>, 2, 2, false, 0, 24);
-    h3!(t1_try_send_mpmc_n2, t_try_op, MPMC<Pay>, 2, 1, true, 0, 24);
-    h3!(t3_try_recv_bcast_n2, t_try_op, BCast<Pay>, 2, 2, false, 1, 24);
-    h3!(t3_try_recv_mpmc_n2, t_try_op, MPMC<Pay>, 2, 1, true, 1, 24);
-    h3!(t4_try_view_bcast_n2, t_try_op, BCast<Pay>, 2, 2, false, 2, 24);
-    h3!(t4_try_view_mpmc_n2, t_try_op, MPMC<Pay>, 2, 1, true, 2, 24);
+    h3!(t1_try_send_bcast_n2, t_try_op, BCast<Pay>, 2, 2, false, 0, 40);
+    h3!(t1_try_send_mpmc_n2, t_try_op, MPMC<Pay>, 2, 1, true, 0, 40);
+    h3!(t3_try_recv_bcast_n2, t_try_op, BCast<Pay>, 2, 2, false, 1, 40);
+    h3!(t3_try_recv_mpmc_n2, t_try_op, MPMC<Pay>, 2, 1, true, 1, 40);
+    h3!(t4_try_view_bcast_n2, t_try_op, BCast<Pay>, 2, 2, false, 2, 40);
+    h3!(t4_try_view_mpmc_n2, t_try_op, MPMC<Pay>, 2, 1, true, 2, 40);
 
+    hf!(s12_into_single_bcast_n2, s_fut_into_single, BCast<Pay>, 2, 2, false);
+    hf!(s12_into_single_mpmc_n2, s_fut_into_single, MPMC<Pay>, 2, 1, true);
+    hf!(s12_uni_into_multi_bcast_n2, s_fut_uni_convert, BCast<Pay>, 2, 2, true);
+    hf!(s12_uni_add_stream_bcast_n2, s_fut_uni_convert, BCast<Pay>, 2, 2, false);
     // ---- S12w: FutWait alone
     macro_rules! hw {
         ($name:ident, $f:ident, $($arg:expr),*) => {
